@@ -114,7 +114,17 @@ def c2s_frames(ctx, count, maxn):
             try:
                 y = numpy.arange(n, dtype=numpy.float64)
                 Xe = None if cfg["ncol"] == 0 else numpy.array([[100 * (c + 1) + tt for c in range(cfg["ncol"])] for tt in range(n)], dtype=numpy.float64)
-                pr = DummyTimeSeriesRegressor(past=past, delay2=d2).fit(Xe, y).predict(Xe, y)
+                if k % 10 == 9:
+                    # the caller's buffers had another content in an earlier call on the same regressor (refilled in place)
+                    keep = y.copy()
+                    y += 1000.0
+                    reg = DummyTimeSeriesRegressor(past=past, delay2=d2).fit(Xe, y)
+                    reg.predict(Xe, y)
+                    y[:] = keep
+                    pr = reg.predict(Xe, y)
+                    t["sig"] += " refilled"
+                else:
+                    pr = DummyTimeSeriesRegressor(past=past, delay2=d2).fit(Xe, y).predict(Xe, y)
                 t.update(pred=_enc(pr), X=[], Y=[], W=[], nrow=0, series_kept=True)
                 traces.append(t)
                 ctx.case(("dummy", n, past, d2, cfg["ncol"]))
@@ -180,6 +190,27 @@ def c2s_mape(ctx, count):
         traces.append(dict(id=k + 1, e=e, p=p, w=w, v=int(round(v * 1000000)), naive=naive,
                            sig="weighted=%s naive=%s" % (weighted, naive), site="timeseries.metrics.ts_mape"))
         ctx.case(("mape", tuple(e), tuple(p), tuple(w)))
+    # tables (several series side by side, as the multi-step targets of delay2 > 2): the same two statements
+    for k in range(max(count // 5, 40)):
+        m, c = rng.randint(3, 12), rng.randint(2, 4)
+        unit = 2.0 ** rng.choice([0, -20, 10])
+        e2 = numpy.array([[rng.randint(0, 12) for _ in range(c)] for _ in range(m)], dtype=float) * unit
+        if not numpy.abs(e2[2:] - e2[1:-1]).sum() > 0:       # the live positions (two forecasts in a row) must vary
+            continue
+        naive2 = numpy.vstack([numpy.full((1, c), numpy.nan), e2[:-1]])
+        other = e2 + numpy.array([[rng.randint(-3, 3) for _ in range(c)] for _ in range(m)], dtype=float) * unit
+        for what, p2, want in (("naive", naive2, 1.0), ("any", other, None)):
+            try:
+                v = float(ts_mape(e2, p2))
+            except Exception as ex:           # noqa: BLE001
+                ctx.violation("CallSucceeds", "timeseries.metrics.ts_mape", "table", repr(ex), case=dict(e=e2.tolist()))
+                break
+            ctx.case(("mape2", e2.tobytes(), what))
+            if want is not None and abs(v - want) > 1e-9:
+                ctx.violation("NaiveIsOne", "timeseries.metrics.ts_mape", "table", "naive forecast of a %dx%d table scores %r" % (m, c, v),
+                              case=dict(e=e2.tolist()))
+            elif not v >= 0:
+                ctx.violation("NonNegative", "timeseries.metrics.ts_mape", "table", "value %r" % v, case=dict(e=e2.tolist(), p=p2.tolist()))
     verdicts, st = tlc.validate("TsMapeTrace", "TsMapeTrace.cfg", traces)
     ctx.states += st["states"]
     ctx.transitions += st["transitions"]
